@@ -11,7 +11,7 @@ CLAIMED = {
     "C01": ("exploration", "DESIGN.md §3 C01",
             "runtime monitor: real Provisioner.Schedule on generated worlds; every placement judged by an independent admissibility oracle (upstream nodeaffinity/toleration/pod-request code + first-principles host ports and sums) on every concrete node each launch option can become",
             "Thousands of generated worlds (catalogs with unavailable / overridden / reserved offerings, NodePools over all operators, daemonsets, managed nodes grown through the real provision→launch→register→initialize pipeline, unmanaged and deleting nodes) x pod batches x {preference policy, minValues policy, parallelism, ReservedCapacity}; each placement on an existing node is checked against provider/API ground truth, each new NodeClaim against every instance-type option x available compatible offering x concrete label assignment. Held-on-observed.",
-            "Trusts the oracle (upstream k8s matchers, 300 lines of first-principles checks), the fake API server and the hostile provider. Volume limits / PV zones are not generated yet. One recorded finding (unsatisfiable conjunction represented as DoesNotExist)."),
+            "Trusts the oracle (upstream k8s matchers, 300 lines of first-principles checks), the fake API server and the hostile provider. PV zones (OR-ed and multi-valued terms, several volumes per pod with nested zone sets), StorageClass allowedTopologies and CSINode limits are generated in 30% of the worlds. One recorded finding (unsatisfiable conjunction represented as DoesNotExist)."),
     "C02": ("exploration", "DESIGN.md §3 C02",
             "runtime monitoring of the real Provisioner.Schedule with a realisation-enumerating end-state oracle written from the Kubernetes documentation / kube-scheduler filter semantics (shares no code with Karpenter's topology code; upstream label-selector, nodeaffinity and toleration matchers only), plus a Go race detector pass over parallel template evaluation (diagnostic)",
             "Each generated world (catalog with partly unavailable zones, 1-3 NodePools with zone / capacity-type / custom-key requirements and taints, labelled namespaces, unmanaged nodes incl. ones lacking topology labels, terminating / terminal pods, deleting nodes, pre-existing skew and anti-affinity replicas bound through the real pipeline) is scheduled three times by the real Provisioner.Schedule with 1-3 deployments carrying required / preferred pod (anti-)affinity (namespaces, namespaceSelector) and DoNotSchedule / ScheduleAnyway spreads (maxSkew 1-3, minDomains, both node inclusion policies, matchLabelKeys) under PRNG-chosen preference policy and parallelism. Every pass is judged in EVERY concrete assignment of (zone, capacity-type, custom key) to the new NodeClaims (instance-type option x available offering x custom values, capped at 512): required anti-affinity in both directions incl. running pods, required affinity with the first-pod exception decided by cycle detection over commit orders, and a final-state necessary condition for maxSkew flagged only if every defensible reading (first remaining node-affinity term vs OR of all, raw vs persistent taints, deleting node present or gone, ...) flags. Two genuine defects fixed, five recorded. 16 of 17 mutants caught.",
@@ -23,7 +23,7 @@ CLAIMED = {
     "C04": ("exploration", "DESIGN.md §3 C04",
             "runtime monitor: lifecycle replay through the real provisioner + lifecycle controller + kubelet actor with a hostile provider; every pod on a new NodeClaim judged inadmissible on every active existing node (independent oracle, provider ground truth); API read log watched for scheduling passes while a NodeClaim is unlaunched",
             "Pods without inter-pod constraints or preferences are provisioned and deliberately left pending while each created NodeClaim moves at its own pace through created/launched/node-appeared/registered/initialized; provisioning is re-run after every step (3-8 passes per case) and each pod placed on new capacity must be inadmissible on all existing/in-flight nodes with their final load, nodes marked for deletion must not receive pods, and the real Provisioner.Reconcile must not reach a scheduling pass while a claim is unlaunched. Held-on-observed.",
-            "Judges 'could admit' with the constraints Karpenter evaluates for the placed copy (first required OR-term, PreferNoSchedule treated as hard) so that only placements wrong under every reading alarm; daemonsets select on NodePool-level labels only; trusts oracle, fake API, provider ground truth."),
+            "Judges 'could admit' with the constraints Karpenter evaluates for the placed copy (first required OR-term, PreferNoSchedule treated as hard) so that only placements wrong under every reading alarm; half of the worlds carry a sizeable daemonset selecting on an instance type / zone / arch / a well-known label nobody defines (its true per-node admissibility is what the oracle uses); trusts oracle, fake API, provider ground truth."),
     "C14": ("fault_enumeration", "DESIGN.md §3 C14",
             "runtime monitoring with per-call fault, crash-point and lost-response enumeration: provider call log (at most one successful Create per UID per controller lifetime, finalizer stored before Create) and a synchronous post-write monitor on NodeClaim status writes (condition order and observable preconditions on the authoritative store), capacity-error deletion monitor",
             "NodeClaims produced by the real Provisioner are driven by the real lifecycle controller and an emulated kubelet in PRNG orders with fresh or monotonically lagging snapshots; each scenario is run fault-free to enumerate Karpenter's K calls and then once per (error kind, call), per crash point (restart rebuilds all in-memory state incl. the launch cache) and per lost-response write. Launched/Registered/Initialized may only become True in order and with their preconditions true at the instant of the write; capacity errors must delete the claim. Ten mutants caught. Held-on-observed.",
@@ -54,8 +54,8 @@ CLAIMED = {
             "Trusts the cron evaluator (minute-tick brute force, UTC), the fake API (typed round trip drops empty slices, so `reasons: []` is covered by the differential monitor only) and the harness' knowledge of in-flight commands."),
     "C06": ("exploration", "DESIGN.md §3 C06",
             "runtime monitor: real disruption controller (all methods, validation delay on the virtual clock) on clusters grown through the real pipeline; every Underutilized/Empty command entering the orchestration queue judged by the admissibility oracle and an independent price oracle (provider ground-truth prices, worst admitted launch)",
-            "Clusters with over-provisioned, underutilised and empty nodes (hostile provider launch choices, price ties, spot/on-demand inversions, unavailable and capacity-overridden offerings, frozen pools, SpotToSpot gate both ways) are reconciled by the real disruption controller; each accepted consolidation command must re-home every reschedulable candidate pod admissibly on initialized non-candidate nodes or one replacement, every replacement option must be strictly cheaper in its worst admitted launch, and Empty commands may only drop pods with non-positive eviction cost. Held-on-observed; two recorded findings.",
-            "No world churn during the 15 s validation wait (the command's own simulation results are judged); no reserved offerings, PDBs or do-not-disrupt in these worlds (C07 covers blockers); trusts oracle, fake API, provider ground truth."),
+            "Clusters with over-provisioned, underutilised and empty nodes (hostile provider launch choices, price ties, spot/on-demand inversions, unavailable and capacity-overridden offerings, frozen pools, SpotToSpot gate both ways) are reconciled by the real disruption controller; each accepted consolidation command must re-home every reschedulable candidate pod admissibly on initialized non-candidate nodes or one replacement, every replacement option must be strictly cheaper in its worst admitted launch, and Empty commands may only drop pods with non-positive eviction cost. Held-on-observed; three recorded findings.",
+            "No world churn during the 15 s validation wait (the command's own simulation results are judged); a third of the worlds have capacity reservations (half exhausted, offered as unavailable) with the ReservedCapacity gate on; no PDBs or do-not-disrupt in these worlds (C07 covers blockers); trusts oracle, fake API, provider ground truth."),
     "C07": ("exploration", "DESIGN.md §3 C07",
             "runtime monitor: real disruption controller on clusters where every node is attractive and carries at most one blocker; every candidate of every command entering the orchestration queue judged against the statement's conjunction recomputed from the authoritative world (nominations from the harness' own record); blockers also applied during the validation wait",
             "Clusters are made attractive for one mode (all empty / underutilised / drifted / drifted with terminationGracePeriod / mixed) with consolidateAfter 0s/5m/Never, policies WhenEmpty/WhenEmptyOrUnderutilized/Balanced and some uninitialised nodes; each node then gets at most one of 13 blockers or controls (node / pod / daemon-pod / terminal-pod do-not-disrupt in boolean and duration forms incl. expiry boundaries, PDB zero / double / allowing, nominated, deleting, recent pod event) and more are applied during the 15 s validation wait. No command may contain a node the statement excludes; drift may override pod-level blockers only with a terminationGracePeriod. Held-on-observed; evidence lists per (method, blocker) how often blocked nodes were spared.",
